@@ -613,8 +613,10 @@ func openStore(dir string, options StoreOptions) (*Store, error) {
 
 		err = checkHeader(file)
 		if err != nil {
+			// E.g. a crash right after the file was created, before
+			// its header was complete; fall back to an older file.
 			file.Close()
-			return nil, err
+			continue
 		}
 
 		// Will recursively restore ChildFooters of childCollections
